@@ -7,6 +7,9 @@ import XC.Proofs.C52_Codec
 import XC.Proofs.C52_Field
 import XC.Proofs.C52_Bits
 import XC.Proofs.C52_Alias
+import XC.Proofs.C52_FinalExp
+import XC.Proofs.C52_Frob
+import XC.Proofs.C52_Fp6
 namespace XC.C52
 
 /-! ## G1 encodings -/
@@ -286,7 +289,9 @@ example : (g2Unmarshal (g2Marshal TwistPoint.gen)).isSome = true := by decide
 
   `GFp2.mul_comm`, `GFp2.mul_assoc`, `GFp2.mul_add`, `GFp2.mul_one`, `GFp2.mul_congr`,
   `GFp2.square_eq_mul`, `GFp2.mulXi_eqv`, `GFp2.conj_mul`; `goBits_value`,
-  `goBits_negative_witness`. -/
+  `goBits_negative_witness`; `XC.Proofs.C52_Alias` (Double alias safety, Add(a,a) = Double(a), P + (−P) = ∞,
+  neutral element), `XC.Proofs.C52_FinalExp` (the final exponentiation's chain has exponent (p¹²−1)/n; constants),
+  `XC.Proofs.C52_Frob` (Frobenius² = FrobeniusP2), `XC.Proofs.C52_Fp6` (Karatsuba = schoolbook). -/
 
 /-- G1.Neg keeps a point on the curve (affine form) -/
 theorem g1_neg_onCurve (x y : Int) (h : onCurve1 x y) : onCurve1 x (-y) := by
